@@ -487,6 +487,11 @@ func RunCheck(o Options) int {
 					p.kill()
 				}
 				found := false
+				if err != nil {
+					// the reproduction could not run at all (e.g. the binary vanished): a broken harness, not a flaky failure
+					fmt.Fprintln(os.Stderr, "HARNESS ERROR while reproducing a failure:", err)
+					return 2
+				}
 				if err == nil {
 					for _, h := range append(res.Fails, extra...) {
 						if h.Sig() == f.Sig() {
